@@ -132,7 +132,7 @@ def replay_file(doc):
     if rp.get("kind") == "qr_dtype":
         return _native_qr_dtype(rp["pd"], rp["fd"], rp.get("iters", 1))
     if rp.get("kind") == "plist":
-        return plist.replay_plist(rp)
+        return plist.replay_plist(rp, (doc.get("verifier_output") or {}).get("model") or {})
     if rp.get("kind") == "native_case":
         cfgd, bad = plist.native_case(rp["case"], rp["seed"])
         return bool(bad), f"{cfgd}: {bad}"
